@@ -575,7 +575,45 @@ impl World for C13 {
         } else {
             len
         };
-        let buf: Vec<Words> = (0..len).map(|_| gen_words(rng, layout)).collect();
+        let mut buf: Vec<Words> = (0..len).map(|_| gen_words(rng, layout)).collect();
+        // Neighbours that repeat, or that are equal under `PartialEq` without being the same value (a zero of the
+        // other sign, a hue whole turns away): whatever a per-element loop carries from one element to the next
+        // (a remembered result, a run-length fast path) shows only there, and independent draws never produce it.
+        if len >= 2 && rng.chance(1, 6) {
+            let is_f64 = matches!(layout, Layout::B);
+            let get = |w: u64| if is_f64 { f64::from_bits(w) } else { f32::from_bits(w as u32) as f64 };
+            let put = |v: f64| if is_f64 { v.to_bits() } else { (v as f32).to_bits() as u64 };
+            for i in 1..len.min(128) {
+                if !rng.chance(1, 2) {
+                    continue;
+                }
+                let mut w = buf[i - 1];
+                match rng.below(4) {
+                    0 => {}
+                    1 => {
+                        // zeros change sign; where there is none, one component becomes a zero of either sign
+                        let mut any = false;
+                        for x in w.iter_mut().take(layout.ncomp()) {
+                            if get(*x) == 0.0 {
+                                *x = put(-get(*x));
+                                any = true;
+                            }
+                        }
+                        if !any {
+                            let j = rng.below(layout.ncomp() as u64) as usize;
+                            w[j] = put(if rng.chance(1, 2) { -0.0 } else { 0.0 });
+                        }
+                    }
+                    _ => {
+                        // whole turns on one component: the same hue where that component is a hue
+                        let j = rng.below(layout.ncomp() as u64) as usize;
+                        let turns = *rng.pick(&[-720.0, -360.0, 360.0, 720.0]);
+                        w[j] = put(get(w[j]) + turns);
+                    }
+                }
+                buf[i] = w;
+            }
+        }
         let faults = rng.chance(6, 10);
         let n_eps = if big { 1 } else { 1 + rng.below(3) as usize };
         let mut budget = if deep { 90i32 } else if big { 3i32 } else { 40i32 };
